@@ -206,17 +206,17 @@ func writeEvidence(verif string, tier string, seed int, res *runResult, wall flo
 	}
 	p := res.prop
 	cov := map[string]any{
-		"explanation": "Static decision of structural clauses of " + p.ID + " from /repo's current source (type-checked, SSA, VTA call graph); nothing in /repo is executed. DECIDED: " + p.Decided + " NOT DECIDED: " + p.NotDecided,
-		"obligations":         total,
-		"discharged":          disch,
-		"evaluations":         total,
-		"distinct_nontrivial": nontriv,
-		"rule":                "one obligation per rule instance on a construct (function, call site, loop, table row), keyed rule|construct without line numbers; non-trivial = needed a dominance / path / table-equality / dataflow argument rather than mere existence; rules: " + strings.Join(p.Rules, " ;; "),
-		"samples":             samples,
-		"per_rule":            perRule,
-		"build_configs":       res.configs,
+		"explanation":            "Static decision of structural clauses of " + p.ID + " from /repo's current source (type-checked, SSA, VTA call graph); nothing in /repo is executed. DECIDED: " + p.Decided + " NOT DECIDED: " + p.NotDecided,
+		"obligations":            total,
+		"discharged":             disch,
+		"evaluations":            total,
+		"distinct_nontrivial":    nontriv,
+		"rule":                   "one obligation per rule instance on a construct (function, call site, loop, table row), keyed rule|construct without line numbers; non-trivial = needed a dominance / path / table-equality / dataflow argument rather than mere existence; rules: " + strings.Join(p.Rules, " ;; "),
+		"samples":                samples,
+		"per_rule":               perRule,
+		"build_configs":          res.configs,
 		"known_findings_matched": res.known,
-		"exhaustive":          false,
+		"exhaustive":             false,
 	}
 	for k, v := range res.stats {
 		cov[k] = v
